@@ -48,13 +48,52 @@ ALIVE = {
 }
 # upgrade().unwrap() on a function parameter / captured variable (no field): function suffix -> reason
 ALIVE_PARAMS = {
-    ("node::Node::create_inner", "arg1"): "callers pass state.weak() of a live state",
     ("kind::expert::public::WeakNode::<T>::make_stale", "arg1"): "WeakNode API: documented to panic on a dead node",
     ("kind::expert::public::WeakNode::<T>::invalidate", "arg1"): "WeakNode API",
     ("kind::expert::public::WeakNode::<T>::add_dependency", "arg1"): "WeakNode API",
     ("kind::expert::public::WeakNode::<T>::add_dependency_with", "arg1"): "WeakNode API",
     ("kind::expert::public::WeakNode::<T>::remove_dependency", "arg1"): "WeakNode API",
 }
+
+
+# functions whose result is a weak handle of an object the caller holds strongly for the duration of the call
+FRESH_WEAK = ("alloc::rc::Rc::downgrade", "incremental::state::State::weak", "incremental::node::Node::weak",
+              "incremental::incr::Incr::weak", "incremental::public::IncrState::weak")
+
+
+def param_alive(prog, F, argno, seen=None, depth=0):
+    """Interprocedural: parameter `argno` (1-based MIR local) of F is a weak handle whose referent is alive on
+    entry if at EVERY call site the argument is a fresh downgrade of something the caller holds, a field of the
+    alive-by-invariant table, or a parameter of the caller with the same property. Returns (bool, reason)."""
+    seen = seen or set()
+    key = (F.path, argno)
+    if key in seen or depth > 5:
+        return True, "recursive"
+    seen = seen | {key}
+    callers = prog.callers(F)
+    if not callers:
+        return False, "no caller found for %s" % F.short
+    for t in callers:
+        C = t.fn
+        pl = t.arg_place(argno - 1)
+        if pl is None:
+            return False, "constant argument in %s" % C.short
+        du = DefUse(C)
+        for o in origins(C, pl, du):
+            if o.kind == "via":
+                continue
+            if o.kind == "call" and strip_generics(str(o.what)) in FRESH_WEAK:
+                continue
+            lf = _last_local(o.fields) if o.fields else None
+            if lf and any(lf.endswith(k) for k in ALIVE):
+                continue
+            if o.kind == "arg" and not C.is_closure:
+                ok, why = param_alive(prog, C, int(o.what), seen, depth + 1)
+                if ok:
+                    continue
+                return False, why
+            return False, "%s passes a weak value of origin %s/%s" % (C.short, o.kind, str(o.what)[:40])
+    return True, "every caller passes a fresh or alive-by-invariant weak handle"
 
 
 def _classify_fields(fields):
@@ -117,11 +156,18 @@ def check_weak(ctx, prog, R, crate="incremental", floor=None):
             for (suf, r), why in ALIVE_PARAMS.items():
                 if strip_generics(F.path).endswith(strip_generics(suf)) and r in roots:
                     key = (suf, r)
+            derived = None
+            if not via_coll and not key and roots and all(r.startswith("arg") for r in roots) and not F.is_closure:
+                res = [param_alive(prog, F, int(r[3:])) for r in roots]
+                if all(ok for ok, _ in res):
+                    derived = res[0][1]
             if via_coll:
                 ctx.fail(R, inst + ":elem", "a weakly held collection element is upgraded and unwrapped", fn=F,
                          span=t.span)
             elif key:
                 ctx.ok(R, inst, ALIVE_PARAMS[key])
+            elif derived:
+                ctx.ok(R, inst, derived)
             else:
                 ctx.fail(R, "%s:%s" % (inst, "/".join(roots)), "upgrade().unwrap() on a weak value of unknown origin (%s)" % roots,
                          fn=F, span=t.span, kind="anchor")
